@@ -29,7 +29,7 @@ Fixpoint digits_fuel (fuel : nat) (n : N) (acc : str) : str :=
 Definition digits (n : N) : str := digits_fuel 40 n [].
 
 Definition AT : str := [97; 116; 32].     (* "at " *)
-Definition DASCII : dtables := {| d_nd := [(48, 57)]; d_isdigit := [(48, 57)] |}.
+Definition DASCII : dtables := {| d_nd := [(48, 57)]; d_isdigit := [(48, 57)]; d_maxdigits := 4300 |}.
 
 Definition the_case (cases : list case_desc) (i : nat) : case_desc :=
   nth i cases {| cd_vol := []; cd_rep := []; cd_page := 0; cd_pl := []; cd_df := [] |}.
